@@ -183,100 +183,94 @@ namespace Stv
 open VL.StvFile
 
 /-- **Nicknames never collide**: what `_candidate_nicks` assigns (the initials, or base-26 ordinal letters as soon as
-    two candidates share initials) is pairwise different for every list of names, of any length. -/
+    some initials are empty or shared) is pairwise different for every list of names, of any length. -/
 theorem stv_nicks_distinct (initials : List String) : (candidateNicks initials).Nodup :=
   candidateNicks_nodup initials
 
+/-- ... and never empty, so every candidate line has the shape `candidate=<nick> <name>` -/
+theorem stv_nicks_nonempty (initials : List String) : ∀ s ∈ candidateNicks initials, s ≠ "" :=
+  candidateNicks_nonempty initials
+
 /-- **Round trip of a whole STV file** (system header + candidates + ballots).  For a system of the shape
     `VotingSystem(title, FixedSeatCount(TieBreaking(TransferableVoteSelector(quota, Gregory, mandatory), tie-breaker), n))`
-    with every wrapper optional, quota `droop` or `hare`, the seat count given at most once (wrapper or `n_seats`
-    argument), and a candidate / ballot part meeting `wfStv` (non-empty nicknames, ballots naming listed candidates,
-    pairwise different, weights with a multiplier spelling, no weight-1 empty ballot, no weight-1 ballot whose only
-    nickname is `end`): `dump_lines` writes a text that `load_lines` reads back to a system with the same title, seat
-    count, quota, mandatory flag and tie-break setting, the same candidates (names, withdrawn flags, order) and the
-    same ballots with their weights. -/
+    with every wrapper optional and the title possibly None, quota `droop` or `hare`, the seat count given at most
+    once (wrapper or `n_seats` argument), names and title the format can carry, ballots naming listed candidates,
+    pairwise different (the empty ballot, weight 1 or not, and a ballot whose only nickname is `end` included), and
+    every multiplier that is written readable (everything but negative ints and non-finite Decimals; Decimals in any
+    notation): `dump_lines` writes a text that `load_lines` reads back to a system with the same title, seat count,
+    quota, mandatory flag and tie-break setting, the same candidates (names, withdrawn flags, order) and the same
+    ballots with their weights. -/
 theorem stv_roundtrip (sd : SysDoc) (hs : wfSys sd = true) (d : Doc Weight) (h : wfStv d = true) :
-    ∃ hv, dumpStv sd.toSys sd.seatsArg d = .ok hv ∧
+    ∃ hv, dumpStv sd.toSys sd.seatsArg true d = .ok hv ∧
       loadStv hv.1 hv.2 = .ok (eraseDoc d, d.cands.map (fun c => (c.1, c.2.1)), sd.summary) :=
   load_dump sd hs d h
 
-/-- the header alone: what `_dump_system` writes, `_create_system` reads back to the same settings -/
+/-- names the format cannot carry ('#', line breaks, edge whitespace, empty) are refused at save -/
+theorem stv_dump_refuses (sys : Sys) (arg : Option Nat) (d : Doc Weight) (ls : List (String × SVal))
+    (h : dumpSys sys = .ok ls) : dumpStv sys arg false d = .error notSupported := by
+  simp [dumpStv, h, bind, Except.bind, throw, throwThe, MonadExceptOf.throw]
+
+/-- the header alone: what `_dump_system` writes, `_load_system` collects and `_create_system` reads back to the
+    same settings -/
 theorem stv_header_roundtrip (sd : SysDoc) (hs : wfSys sd = true) :
-    ∃ ls, dumpSys sd.toSys = .ok ls ∧
-      createSystem (collect (ls ++ (match sd.seatsArg with | some n => [("seats", SVal.num n)] | none => [])) [])
-        = .ok sd.summary :=
+    ∃ ls c, dumpSys sd.toSys = .ok ls ∧
+      collect (ls ++ (match sd.seatsArg with | some n => [("seats", SVal.num n)] | none => [])) {} = .ok c ∧
+      createSystem c = .ok sd.summary :=
   sys_rt sd hs
 
-/-- **Exceptions of the reader** on any token lines (header and ballots): STVParseError, NotImplementedError (a method
-    other than BC / GPCA2000), a construct outside this model (BLT mode, `order=`), or one of five foreign exceptions —
-    ValueError (candidate line without a name, exotic digits), ZeroDivisionError (multiplier `p/0X`), TypeError
-    (unknown header key, repeated `seats=`), AttributeError (repeated `random=`, three `quota=` lines), IndexError
-    (`quota=mandatory` twice).  The foreign ones are the open findings `stv_text:raises_*`. -/
-theorem stv_error_kinds (hs : List HLine) (vs : List VLine) (e : Err) (h : loadStv hs vs = .error e) :
-    e = Err.parseError ∨ e = Err.notImplemented ∨ e = StvFile.unmodelled ∨ e = Err.other "ValueError"
-      ∨ e = Err.other "ZeroDivisionError" ∨ e = Err.other "TypeError" ∨ e = Err.other "AttributeError"
-      ∨ e = Err.other "IndexError" :=
-  loadStv_err hs vs e h
+/-- **Parse error or data** (the full statement for the STV reader, own unordered format).  On ANY token lines —
+    header and ballots — `load_lines` returns the election, or raises STVParseError, or NotImplementedError for a
+    `method=` other than BC / GPCA2000 (a declared refusal of a well-formed file), or meets a construct outside this
+    model (BLT content, `order=`).  No other exception is possible. -/
+theorem stv_parse_total (hs : List HLine) (vs : List VLine) :
+    (∃ r, loadStv hs vs = .ok r) ∨ loadStv hs vs = .error Err.parseError
+      ∨ loadStv hs vs = .error Err.notImplemented ∨ loadStv hs vs = .error StvFile.unmodelled := by
+  cases h : loadStv hs vs with
+  | ok r => exact Or.inl ⟨r, rfl⟩
+  | error e =>
+    rcases loadStv_err hs vs e h with rfl | rfl | rfl
+    · exact Or.inr (Or.inl rfl)
+    · exact Or.inr (Or.inr (Or.inl rfl))
+    · exact Or.inr (Or.inr (Or.inr rfl))
 
-/-- the foreign exceptions of the header are attained: `foo=bar` (TypeError), `random=1` twice (AttributeError),
-    `quota=mandatory` twice (IndexError) -/
-theorem stv_header_foreign_witness :
-    createSystem (collect [("method", SVal.word "BC"), ("quota", SVal.word "droop"), ("foo", SVal.word "bar")] [])
-        = .error (Err.other "TypeError")
-    ∧ createSystem (collect [("method", SVal.word "BC"), ("quota", SVal.word "droop"), ("random", SVal.num 1), ("random", SVal.num 2)] [])
-        = .error (Err.other "AttributeError")
-    ∧ createSystem (collect [("method", SVal.word "BC"), ("quota", SVal.word "mandatory"), ("quota", SVal.word "mandatory")] [])
-        = .error (Err.other "IndexError") := by
-  decide +kernel
+/-- the header lines that raised TypeError / AttributeError / IndexError / ValueError before: all STVParseError now
+    (`foo=bar`; `random=1` twice; `quota=mandatory` twice; `candidate=a`) -/
+theorem stv_former_foreign_errors :
+    loadStv [.other "method" (SVal.word "BC"), .other "quota" (SVal.word "droop"), .other "foo" (SVal.word "bar"), .ballotsN 0] [.endLine]
+        = .error Err.parseError
+    ∧ loadStv [.other "method" (SVal.word "BC"), .other "quota" (SVal.word "droop"), .other "random" (SVal.num 1),
+               .other "random" (SVal.num 2), .ballotsN 0] [.endLine] = .error Err.parseError
+    ∧ loadStv [.other "method" (SVal.word "BC"), .other "quota" (SVal.word "mandatory"), .other "quota" (SVal.word "mandatory"),
+               .ballotsN 0] [.endLine] = .error Err.parseError
+    ∧ loadStv [.other "method" (SVal.word "BC"), .other "quota" (SVal.word "droop"), .candBad, .ballotsN 0] [.endLine]
+        = .error Err.parseError :=
+  ⟨rfl, rfl, rfl, rfl⟩
 
-/-! The two side conditions of `stv_roundtrip` on ballots are needed: both are genuine defects of the format code. -/
-
-def sysW : SysDoc := { title := some (SVal.word "T"), seatsFixed := some 1, seatsArg := none, random := none,
+def sysW : SysDoc := { title := none, seatsFixed := some 1, seatsArg := none, random := none,
                        quota := "droop", mandatory := false }
 
-/-- a candidate with initials `end` ("Ed N. Dav"): its weight-1 single-candidate ballot is written as the line `end`,
-    which the reader takes for the terminator (STVParseError on reload) -/
-theorem stv_nick_end_witness :
+/-- the two ballots the writer used to lose: a candidate with initials `end` and a weight-1 ballot for that candidate
+    alone (now written `1X end`), an empty ballot of weight 1 (now written `1X`) — both read back -/
+theorem stv_end_and_empty_ballot_reload :
     let d : Doc Weight := { cands := [("Ed N. Dav", false, "end"), ("Bo", false, "b")],
-                            ballots := [([0], ⟨1, true⟩), ([1], ⟨2, true⟩)] }
-    ∃ hv, dumpStv sysW.toSys none d = .ok hv ∧ loadStv hv.1 hv.2 = .error Err.parseError := by
-  refine ⟨_, rfl, ?_⟩
-  decide +kernel
-
-/-- an empty ballot of weight 1 is written as an empty line and silently dropped by the reader -/
-theorem stv_empty_ballot_witness :
-    let d : Doc Weight := { cands := [("Al", false, "a"), ("Bo", false, "b")], ballots := [([], ⟨1, true⟩), ([1], ⟨2, true⟩)] }
-    ∃ hv, dumpStv sysW.toSys none d = .ok hv ∧ loadStv hv.1 hv.2
-      = .ok ({ cands := [("Al", false, ""), ("Bo", false, "")], ballots := [([1], 2)] }, [("Al", false), ("Bo", false)],
-             sysW.summary) := by
-  refine ⟨_, rfl, ?_⟩
-  decide +kernel
-
-theorem stv_roundtrip_unconditional_witness :
-    ¬ ∀ (sd : SysDoc) (d : Doc Weight), wfSys sd = true → ∃ hv, dumpStv sd.toSys sd.seatsArg d = .ok hv ∧
-        loadStv hv.1 hv.2 = .ok (eraseDoc d, d.cands.map (fun c => (c.1, c.2.1)), sd.summary) := by
-  intro h
-  obtain ⟨hv, h1, h2⟩ := h sysW { cands := [("Ed N. Dav", false, "end"), ("Bo", false, "b")],
-                                  ballots := [([0], ⟨1, true⟩), ([1], ⟨2, true⟩)] } (by decide +kernel)
-  obtain ⟨hv', h1', h2'⟩ := stv_nick_end_witness
-  have e : hv = hv' := by
-    have := h1.symm.trans h1'
-    exact Except.ok.inj this
-  subst e
-  rw [h2] at h2'
-  cases h2'
+                            ballots := [([0], ⟨1, true⟩), ([], ⟨1, true⟩), ([1], ⟨2, true⟩)] }
+    ∃ hv, dumpStv sysW.toSys none true d = .ok hv ∧
+      loadStv hv.1 hv.2 = .ok (eraseDoc d, [("Ed N. Dav", false), ("Bo", false)], sysW.summary) :=
+  load_dump sysW (by decide +kernel) _ (by decide +kernel)
 
 /-- non-vacuity: duplicate initials ("Ann Berg", "Al Brown" → ordinal nicknames a, b, c), a withdrawn candidate,
-    Fraction and Decimal multipliers, an empty ballot with a multiplier, a weight-1 ballot; a system with title, seats
-    argument, mandatory quota and a seeded tie-breaker -/
+    Fraction and Decimal multipliers, empty ballots, a weight-1 ballot; a system with title, seats argument, mandatory
+    quota and a seeded tie-breaker; a name without any word character -/
 def exStv : Doc Weight :=
   { cands := [("Ann Berg", false, "ab"), ("Al Brown", true, "ab"), ("J. Smith", false, "js")],
-    ballots := [([0, 2], ⟨1, true⟩), ([2, 1, 0], ⟨7/3, true⟩), ([], ⟨3/2, true⟩), ([1], ⟨2, true⟩), ([2], ⟨1/2, true⟩)] }
+    ballots := [([0, 2], ⟨1, true⟩), ([2, 1, 0], ⟨7/3, true⟩), ([], ⟨1, true⟩), ([1], ⟨2, true⟩), ([2], ⟨1/2, true⟩)] }
 def exSys : SysDoc := { title := some (SVal.word "Council 2020"), seatsFixed := none, seatsArg := some 3,
                         random := some (some 7), quota := "hare", mandatory := true }
 example : wfStv exStv = true := by decide +kernel
 example : wfSys exSys = true := by decide +kernel
 example : candidateNicks (exStv.cands.map (·.2.2)) = ["a", "b", "c"] := by decide +kernel
+example : candidateNicks ["", "b"] = ["a", "b"] := by decide +kernel
+example : candidateNicks [""] = ["a"] := by decide +kernel
 
 end Stv
 
